@@ -21,6 +21,7 @@ type Clause struct {
 	Tags  []string // property ids
 	Label string
 	Known string // known finding id ("KF-n") or ""
+	Site  string // atcall clauses: "inloop" / "outloop" / "" (all call sites)
 	Text  string
 	Expr  ast.Expr
 	Loop  int
@@ -385,10 +386,19 @@ func (cs *ContractSet) addClause(cur **Contract, pkgPath, pos, text string) erro
 			return fmt.Errorf("%s: atcall <callee> requires|assumes E", pos)
 		}
 		callee := strings.TrimSpace(rest[:i])
+		site := ""
+		for _, sp := range []string{"inloop ", "outloop "} {
+			// atcall inloop|outloop <callee> ...: the clause applies only to call sites inside / outside loops
+			if strings.HasPrefix(callee, sp) {
+				site = strings.TrimSpace(sp)
+				callee = strings.TrimSpace(strings.TrimPrefix(callee, sp))
+			}
+		}
 		cl, err := mk("requires", strings.TrimSpace(rest[i+len(kwd):]), 0)
 		if err != nil {
 			return err
 		}
+		cl.Site = site
 		if c.AtCall == nil {
 			c.AtCall = map[string][]*Clause{}
 			c.AtCallAssume = map[string][]*Clause{}
